@@ -512,6 +512,7 @@ class OutcomeModule(object):
     def __init__(self):
         self.src = ''
         self.tests = []      # dicts: ident, callname, kind, outcome, id, marks
+        self.left_out_block = False
 
     def enabled(self):
         return [t for t in self.tests if t['outcome'] != 'disabled']
@@ -573,5 +574,13 @@ def outcome_module(rng, uid, layout='google', kinds=None, n=None, in_class=True,
             om.tests.append(second)
             prev = None
         k += 1
+    if not lead and rng.random() < 0.25:
+        # a documented function whose only doctest code stands under a header that freeform collection leaves out (two
+        # parts: a want between its statements): no doctest of the module, never listed, never run
+        src += ['def left_out_%s():' % uid.replace('x', '_'), '    """', '    Summary.', '',
+                '    ' + rng.choice(['Ignore:', 'DisableDoctest:', 'SkipDoctest:']),
+                '        >>> mark("ig%sA")' % uid, '        >>> print("a")', '        a', '        >>> mark("ig%sB")' % uid,
+                '        >>> print("b")', '        WRONG', '    """', '    return 1', '']
+        om.left_out_block = True
     om.src = '\n'.join(src) + '\n'
     return om
